@@ -378,15 +378,38 @@ fn misshaped(ctx: &Ctx, rep: &mut Report, id: usize, cfg: Cfg, kind: usize) {
     };
     let Ok(proof) = Parts::from_ref(&rp).to_proof() else { return };
     let Ok(st) = RangeStatement::init(prm.clone(), mem.rst.commitments.clone(), promises.clone(), None) else { return };
-    let descr = json!({"cfg": cfg.json(), "shape": name});
+    // alone, or as the first / middle / last member of a small batch of otherwise well-shaped members
+    let others = (id / 4) % 4; // 0 = alone
+    let position = if others == 0 { 0 } else { [0usize, others, others / 2][(id / 16) % 3] };
+    let mut ts = vec![];
+    let mut sts = vec![];
+    let mut proofs = vec![];
+    for i in 0..=others {
+        if i == position {
+            ts.push(mem.ctx.transcript());
+            sts.push(st.clone());
+            proofs.push(proof.clone());
+        } else {
+            let m = [1usize, 2, 1][i % 3].min(cfg.cap);
+            let Some(o) = symbolic_member(Cfg::new(cfg.n, m, cfg.cap, cfg.ext), &mut rng).or_else(|| honest_member(Cfg::new(cfg.n, m, cfg.cap, cfg.ext), false, i, &mut rng)) else { return };
+            ts.push(o.ctx.transcript());
+            sts.push(o.st.clone());
+            proofs.push(o.proof.clone());
+        }
+    }
+    let descr = json!({"cfg": cfg.json(), "shape": name, "batch_size": others + 1, "position": position});
+    let name = &format!("{name}{}", if others == 0 { "" } else if position == others { ", last batch member" } else if position == 0 { ", first batch member" } else { ", middle batch member" });
     fm::arm();
-    let res = no_panic(|| verify_one(&mem.ctx.transcript(), &st, &proof, VerifyAction::VerifyOnly));
+    let res = no_panic(|| verify_many(&ts, &sts, &proofs, VerifyAction::VerifyOnly).map(|_| ()));
     let log = fm::take();
-    rep.eval(&("shape", cfg, kind));
+    rep.eval(&("shape", cfg, kind, others, position));
     rep.count("misshaped_inputs", 1);
+    if others > 0 {
+        rep.count("misshaped_inputs_inside_batches", 1);
+    }
     match res {
         Err(p) => rep.violation(&format!("C02 verify-panic shape [{name}]"), &format!("verifier panicked: {p}"), replay(ctx, id, descr)),
-        Ok(Ok(_)) => rep.violation(&format!("C02 misshaped-accepted [{name}]"), &format!("verifier accepted a proof with {name}"), replay(ctx, id, descr)),
+        Ok(Ok(())) => rep.violation(&format!("C02 misshaped-accepted [{name}]"), &format!("verifier accepted a proof with {name}"), replay(ctx, id, descr)),
         Ok(Err(_)) => {
             if !log.msm.is_empty() {
                 rep.violation(
